@@ -132,6 +132,10 @@ def menu(tmp):
     m['pkg_fn'] = lambda: _pkg_fn
     m['source_list'] = lambda: [dict(a=7, b='n'), dict(a=8, b='m')]
     m['source_gen'] = lambda: (dict(a=i, c=Decimal(i)) for i in range(3))
+    # an iterable whose cells need the cast the loader applies to every row ('' is the missing value of the inferred schema: a null),
+    # and a step that SEES the difference in the middle of the chain
+    m['source_blank'] = lambda: [dict(a=11, b=''), dict(a=12, b='w'), dict(a=13, b='')]
+    m['filter_b_notnull'] = lambda: DF.filter_rows(condition=lambda r: r.get('b', 0) is not None)
     m['sources'] = lambda: DF.sources([dict(a=5, b='u')], [dict(a=6, b='v')])
     return m
 
